@@ -113,6 +113,7 @@ def make_case(cid, batch, tree, outside, spelling, plan, streams="pipes"):
 
 def gen_cases(tier, seed):
     quick = tier == "quick"
+    yield from gen_twins(tier, seed)
     # 1. exhaustive: all readdir permutations of fixed small directories
     fixed = [
         [{"name": "x.mmm", "kind": "file", "content": "1"}, {"name": "x.ms", "kind": "file", "content": "2"},
@@ -169,12 +170,14 @@ def gen_cases(tier, seed):
         if rng.chance(1, 2):
             outside = dedup([gen_entry(rng, 2, 90 + j) for j in range(rng.range(1, 3))])
         # DIR as the user spells it: plain, with ./ and trailing slashes, `.` from inside, through a symbolic link to it
-        spelling = rng.choice(["d", "d", ".", "./d/", "./d", "d/", "dl", "dl/"])
+        spelling = rng.choice(["d", "d", ".", "./d/", "./d", "d/", "dl", "dl/", "abs", "absgone"])
         batch = rng.weighted([("fault_free", 2), ("benign", 5), ("hard", 3)])
         prng = Rng(derive(seed, PROP, "plan", k))
         plan = gen_plan(prng, batch, len(tree))
         streams = prng.choice(["pipes", "one"])
         c = make_case("r%d" % k, batch, tree, outside, spelling, plan, streams)
+        if prng.chance(1, 8):
+            c["vars"] = {"CLICOLOR_FORCE": "1"}      # colours forced on although the output is a pipe
         if prng.chance(1, 4):
             # the inherited PWD names another directory than the one the command is started in (env -C, make -C, cwd= of a
             # parent process); that other directory has a `d` with bytecode files of its own
@@ -221,7 +224,77 @@ def snapshot(root):
     return snap
 
 
+def gen_twins(tier, seed):
+    """Two `clean` commands on the same directory: the first is stopped before its k-th unlink (or at its k-th readdir/open),
+    the second runs from start to end, the first goes on.  Together they may delete only what is eligible, and whoever
+    reports success reports the number of entries it removed itself."""
+    n = 0
+    for call in ("unlink", "open"):
+        for k in (range(1, 7) if tier == "quick" else range(1, 12)):
+            for nfiles in (2, 5):
+                rng = Rng(derive(seed, PROP, "twins", call, k, nfiles))
+                tree = [{"name": "m%d.mmm" % i, "kind": "file", "content": "b%d" % i} for i in range(nfiles)]
+                tree += [{"name": "keep.ms", "kind": "file", "content": "s"}, {"name": "sub", "kind": "dir", "children": [{"name": "in.mmm", "kind": "file", "content": "x"}]}]
+                yield {"prop": PROP, "id": "w%d" % n, "batch": "twins", "tree": tree, "outside": [], "dir": "d", "plan": {"seed": rng.hexbytes(16), "rules": []},
+                       "stall": {"call": call, "nth": k}, "streams": "pipes", "seed_b": rng.hexbytes(16)}
+                n += 1
+
+
+def run_twins(case):
+    world = core.fresh_world()
+    root = os.path.join(world, "root")
+    os.makedirs(os.path.join(root, "d"))
+    build_tree(os.path.join(root, "d"), case["tree"], None, None)
+    before = snapshot(root)
+    rule = {"id": "st", "call": case["stall"]["call"], "pat": "*", "nth": str(case["stall"]["nth"]), "act": "stall"}
+    res = {}
+
+    def b_runs():
+        res["b"] = core.run_cmd(root, ["clean", "d"], plan={"seed": case["seed_b"], "rules": []})
+
+    a = core.run_cmd(root, ["clean", "d"], plan={"seed": case["plan"]["seed"], "rules": [rule]}, during=b_runs)
+    b = res.get("b")
+    after = snapshot(root)
+    procs = [a] + ([b] if b else [])
+    st = core.stats_of(procs, [[rule]] * len(procs))
+    st["hash_seeds"] = [case["plan"]["seed"], case["seed_b"]]
+    st["shape"] = core.shape_hash("twins", case["stall"], len(case["tree"]))
+    st["nontrivial"] = True
+    st["sample"] = {"stall": case["stall"], "entries": len(case["tree"])}
+    st["probes"] = {"second_process_ran_while_first_was_stopped": 1} if a.get("stalled") else {"stall_point_beyond_the_end_of_the_process": 1}
+
+    def fail(cls, msg):
+        return {"ok": False, "class": cls, "msg": msg, "stats": st, "detail": {"before": before, "after": after,
+                "a": {"rc": a["rc"], "stdout": core.text(a["out"]), "stderr": core.text(a["err"])[-800:]},
+                "b": None if b is None else {"rc": b["rc"], "stdout": core.text(b["out"]), "stderr": core.text(b["err"])[-800:]}}}
+
+    for rel, val in before.items():
+        parts = rel.split(os.sep)
+        may_go = len(parts) == 2 and parts[0] == "d" and val[0] != "dir" and eligible_name(parts[1])
+        if rel not in after and not may_go:
+            return fail("deleted-ineligible", "two overlapping clean commands removed %r" % rel)
+        if rel in after and after[rel] != val:
+            return fail("altered", "two overlapping clean commands altered %r" % rel)
+        if rel in after and may_go and val[0] == "file":
+            return fail("incomplete", "%r is still there after two clean commands" % rel)
+    for who, p in (("first", a), ("second", b)):
+        if p is None or p["timeout"]:
+            return fail("timeout", "the %s clean command did not terminate" % who)
+        if p["rc"] < 0 or p["rc"] == 101 or b"panicked at" in p["err"]:
+            return fail("panic", "the %s clean command panicked when entries vanished under it" % who)
+        if p["rc"] == 0:
+            own = sum(1 for e in p["events"] if e["call"] == "unlink" and e["res"] == 0)
+            m = re.search(r"Removed (\d+) files\s*$", core.text(p["out"]))
+            if not m:
+                return fail("no-report", "the %s clean command exited 0 without reporting a count" % who)
+            if int(m.group(1)) != own:
+                return fail("wrong-count", "the %s clean command reports %s removed files, it removed %d itself" % (who, m.group(1), own))
+    return {"ok": True, "stats": st}
+
+
 def run_case(case):
+    if case.get("batch") == "twins":
+        return run_twins(case)
     # layout: <world>/root/{d/...(the tree), outside entries, targets/}
     world = core.fresh_world()
     root = os.path.join(world, "root")
@@ -240,10 +313,13 @@ def run_case(case):
     spelling = case["dir"]
     if spelling == ".":
         cwd, arg = ddir, "."
+    elif spelling in ("abs", "absgone"):
+        # DIR named absolutely; "absgone": the command is started in a directory that has been removed since
+        cwd, arg = root, ddir
     else:
         cwd, arg = root, spelling
     os.symlink("d", os.path.join(root, "dl"))
-    xenv = {}
+    xenv = dict(case.get("vars") or {})
     if case.get("stale_pwd"):
         decoy = os.path.join(root, "elsewhere")
         os.makedirs(os.path.join(decoy, "d"))
@@ -254,7 +330,7 @@ def run_case(case):
         xenv["PWD"] = decoy
     before = snapshot(root)
     plan = case["plan"]
-    p = core.run_cmd(cwd, ["clean", arg], plan=plan, streams=case.get("streams", "pipes"), extra_env=xenv)
+    p = core.run_cmd(cwd, ["clean", arg], plan=plan, streams=case.get("streams", "pipes"), extra_env=xenv, gone_cwd=(spelling == "absgone"))
     after = snapshot(root)
     st = core.stats_of([p], [plan.get("rules", [])])
     fired_hard = any(e["rule"] == "h" for e in p["events"])
@@ -313,7 +389,7 @@ def run_case(case):
             return fail("incomplete", "bytecode files left behind without any fault: %r (rc=%d)" % (left, p["rc"]))
         if p["rc"] != 0:
             return fail("exit-status", "clean failed (rc=%d) although the environment did not fail: %s" % (p["rc"], core.text(p["err"])[-300:]))
-        out = core.text(p["out"])
+        out = re.sub(r"\x1b\[[0-9;]*m", "", core.text(p["out"]))      # colours may be forced on
         m = re.search(r"Removed (\d+) files\s*$", out)
         if not m:
             return fail("no-report", "clean did not report the number of removed files: %r" % out[-200:])
@@ -331,6 +407,8 @@ def run_case(case):
 # --------------------------------------------------------------------- shrink
 
 def shrink(case):
+    if case.get("batch") == "twins":
+        return
     for i in range(len(case["plan"].get("rules", []))):
         c = copy.deepcopy(case)
         del c["plan"]["rules"][i]
